@@ -35,15 +35,15 @@ func init() {
 
 // mapRoles resolves the roles of the ordered map from its exported API and types.
 type mapRoles struct {
-	Map, node              *types.Named
-	head, vals, refCnt     *types.Var
-	pool                   *types.Var
-	unlink, release, next  *ssa.Function
-	putVal                 *ssa.Function
-	iterFn, addFn, remFn   *ssa.Function
-	iterT                  *types.Named
-	itPtr                  *types.Var
-	closeFn                *ssa.Function
+	Map, node             *types.Named
+	head, vals, refCnt    *types.Var
+	pool                  *types.Var
+	unlink, release, next *ssa.Function
+	putVal                *ssa.Function
+	iterFn, addFn, remFn  *ssa.Function
+	iterT                 *types.Named
+	itPtr                 *types.Var
+	closeFn               *ssa.Function
 }
 
 func resolveMapRoles(c *Ctx) *mapRoles {
